@@ -54,14 +54,29 @@ ASSUMPTIONS = [
     'the CIFTI names used',
     'SeriesAxis arithmetic is modelled over Int (the correspondence stream uses integer start/step); float '
     'start/step are covered by the oracle only, to a tolerance of 1e-9 relative',
-    'PARTIAL: the XML layer (Cifti2* _to_xml_element, Cifti2Parser/expat), the NIfTI-2 container and the '
-    'to_header map sharing are NOT modelled; they are exercised by the round-trip oracle streams xml/file only',
+    'phase-3 extension: to_mapping/from_index_mapping of Series, Scalar, Label (explicit label tables) and Parcels '
+    '(explicit voxel lists / vertex dicts) axes, the colour text of Cifti2Label (`0`/`1`/str(val), float(attr)) and '
+    'the to_header loop are modelled and model-compared (streams ser-map, sc-xrt, lar-xrt, par-xrt, hdr); the '
+    'IndicesMapToDataType strings, the return_type dispatch dict and the series exponent are REGENERATED from the '
+    'working tree (Generated/C18.lean). XML contract (trusted): expat/ElementTree parse∘serialise = id on the '
+    'element tree, float(str(v)) = v for finite floats (colours are opaque binary64 bit patterns in the model), '
+    'names/metadata without outer whitespace unchanged',
+    'PARTIAL: the XML text layer itself (Cifti2* _to_xml_element, Cifti2Parser/expat, float repr, the 10-decimal '
+    'affine text compared with np.allclose) and the NIfTI-2 container are NOT modelled; to_header has a model and a '
+    'correspondence stream but no theorem; BrainModelAxis `+` success is not characterised (parcels: '
+    'parcels_add_ok_iff); exercised by the round-trip oracle streams xml/file/file2 only',
 ]
 RULE = ('streams: series (int start/step/size/unit x int|slice|index-array|mask index, add), series-float '
         '(oracle only), scalar/label/parcels/bm (random parallel lists of ids; bm with interleaved structures, '
         'surface+volume, unused nvertices keys, invalid constructor inputs) x {int, slice all signs/out-of-range, '
         'index array incl. negative/out-of-range, boolean mask incl. wrong length} and add; bm runs / '
-        'to_mapping+from_index_mapping; xml and file round trips of 1-3 axis tuples (oracle only). '
+        'to_mapping+from_index_mapping; ser-map / sc-xrt / lar-xrt / par-xrt (one axis through to_mapping, XML text, '
+        'parser, from_index_mapping; label tables with Int keys in any order and colours n/255, random 53-bit, float32, '
+        'denormal, 1-2^-53, -0.0, int, numpy scalars; parcels with unused / missing nvertices entries) and hdr '
+        '(to_header sharing on repeated series/scalar axes), all model-compared; xml and file round trips of 1-3 axis '
+        'tuples (oracle only) incl. rich label tables, series start/step needing 17 digits, oblique affines, '
+        '32492-vertex surfaces and axes with a HISTORY (1-3 indexing / concatenation steps before serialising: '
+        'parcels with unused surfaces, interleaved brain models). '
         'A case is non-trivial unless it is a full slice; distinct by (axis description, operation).')
 
 def regen():
